@@ -10,6 +10,7 @@ import (
 	"0chain.net/smartcontract/storagesc"
 
 	"verifh/snap"
+	"verifh/world"
 )
 
 // ---- C01: supply conserved -------------------------------------------------------------------------------------------
@@ -134,6 +135,16 @@ func monC05(h *Hist, o *TxnObs) {
 			h.V("C05", "balance-above-supply", fmt.Sprintf("account %s balance %d exceeds the total supply", h.name(id), cl.Balance), o)
 		}
 	}
+	// a queued transfer that no balance can cover (above the whole supply) must fail the whole transaction
+	if steps, ok := o.Call.Meta["probe_steps"].([]world.ProbeStep); ok && o.Outcome == "success" {
+		for _, st := range steps {
+			if st.Amount > config.MaxTokenSupply && st.To != "not-a-hash" {
+				h.V("C05", "transfer-above-supply-applied", fmt.Sprintf("a transaction queuing a transfer of %d (> total supply) was applied", st.Amount), o)
+				break
+			}
+		}
+		h.C("C05", "probe_calls_with_known_transfers")
+	}
 	if o.Outcome == "rejected" {
 		if !o.Delta.Empty() {
 			h.V("C05", "rejected-txn-changed-state", fmt.Sprintf("rejected txn (%v) changed %v", o.Err, o.Delta.All()), o)
@@ -202,6 +213,12 @@ func monC02(h *Hist, o *TxnObs) {
 	}
 	if nerr != 1 {
 		h.V("C02", "error-event-count:"+o.Call.Name, fmt.Sprintf("failed %s produced %d error events", o.Call.Name, nerr), o)
+	}
+	// nothing the failed call wrote may be visible to later reads (cache residue)
+	if h.Focus == "C02" {
+		h.rereadTouched(o, "C02", func(sig, detail string) {
+			h.V("C02", "failed-call-left-"+sig, detail, o)
+		})
 	}
 }
 
